@@ -480,3 +480,11 @@ obligation('C07-i', 'T5 T7 T3', 'proposals are filtered by finite prior log dens
            'the requested number is returned (shared with C13-c)', floor=6,
            necessary='a candidate whose prior log density is -inf or NaN becomes a particle '
                      'without positive prior density')(_C13.c13_c)
+
+
+
+@obligation('C07-j', 'T6 T11', 'a round threshold of 0 is never tested by truth value', floor=1,
+            necessary='a zero threshold treated as absent ends the round on the initial batch estimate with unfilled particles')
+def c07_j(ctx):
+    from .base import zero_is_valid_obligation
+    zero_is_valid_obligation(ctx, ['threshold'])
